@@ -1,4 +1,5 @@
 import TpmVerif.Model.Auth
+import TpmVerif.Props.C13
 /-!
   C04 — authorization is enforced. Theorems about `Model.Auth` (the decision of `SessionProcess.c` on the wire level).
   What cannot be a theorem: that HMAC-SHA256 has no collisions/forgeries. The theorems therefore state (a) the decision
@@ -351,6 +352,52 @@ theorem stripZeros_idem (a : Bytes) : stripZeros (stripZeros a) = stripZeros a :
     by_cases hx : (x == 0) = true
     · simp [hx, ih]
     · simp [hx]
+
+/-! ### Parameter encryption -/
+
+theorem xor_twice (x m : UInt8) : (x ^^^ m) ^^^ m = x := TpmVerif.Props.C13.xor_twice x m
+
+/-- XOR obfuscation is its own inverse for every mask at least as long as the data -/
+theorem xor_mask_involution : ∀ (d m : Bytes), d.length ≤ m.length →
+    List.zipWith (· ^^^ ·) (List.zipWith (· ^^^ ·) d m) m = d := by
+  intro d
+  induction d with
+  | nil => intro m _; simp
+  | cons x xs ih =>
+    intro m hl
+    cases m with
+    | nil => simp at hl
+    | cons y ys =>
+      simp only [List.zipWith_cons_cons, List.cons.injEq]
+      exact ⟨xor_twice x y, ih ys (by simpa using hl)⟩
+
+/-- hence decrypting what was XOR-encrypted under the same key and nonces gives the parameter back, whenever the KDFa
+    mask covers the data (it is asked for data.length * 8 bits) -/
+theorem paramCrypt_xor_roundtrip (key n1 n2 data : Bytes)
+    (hm : data.length ≤ (kdfa sha256 key "XOR" n1 n2 (data.length * 8)).length) :
+    paramCrypt 1 key n1 n2 (paramCrypt 1 key n1 n2 data true) false = data := by
+  unfold paramCrypt
+  simp only [if_true]
+  have hl : (List.zipWith (· ^^^ ·) data (kdfa sha256 key "XOR" n1 n2 (data.length * 8))).length = data.length := by
+    simp [List.length_zipWith]; omega
+  rw [hl]
+  exact xor_mask_involution data _ hm
+
+/-- AES-CFB parameter encryption is inverted by decryption under the same key and nonces — for every block function
+    with 16-byte output in place of AES (C13's `cfb_roundtrip`), every parameter length incl. partial blocks -/
+theorem paramCrypt_cfb_roundtrip (key n1 n2 data : Bytes)
+    (hE : ∀ x, (aesEncryptBlock ((kdfa sha256 key "CFB" n1 n2 256).take 16) x).length = 16) :
+    paramCrypt 2 key n1 n2 (paramCrypt 2 key n1 n2 data true) false = data := by
+  unfold paramCrypt
+  simp only [show (2 : Nat) ≠ 1 from by decide, if_false, if_true]
+  exact TpmVerif.Props.C13.cfb_roundtrip _ hE _ data
+
+/-- without a symmetric algorithm the parameters pass unchanged -/
+theorem paramCrypt_none (key n1 n2 data : Bytes) (e : Bool) : paramCrypt 0 key n1 n2 data e = data := by
+  simp [paramCrypt]
+
+/-- a session key exists only with a bind or a salt -/
+theorem sessionKey_empty (nt nc : Bytes) : sessionKeyWith [] [] nt nc = [] := by simp [sessionKeyWith]
 
 /-! ### Non-vacuity: a concrete state in which an authorization verifies, and corrupted variants do not -/
 section example_state
